@@ -65,8 +65,12 @@ def _check_lock_and_prefix(run, repo, world):
     _check_edt(run, repo, world, fns)
     # recovery from a silent gateway: what arrives late is discarded before
     # the next command (shared with C16)
-    from .C16 import _check_flush
+    from .C16 import _check_flush, check_serial_order
     _check_flush(run, repo, world)
+    # ... and it is discarded by the caller that holds the lock, right before
+    # it transmits: a flush made while still queueing for the lock leaves
+    # what arrives in between to be taken as this caller's answer
+    check_serial_order(run, repo, world, rule="R-FLUSH")
 
 
 def _check_slot(run, repo, world, mod):
@@ -310,17 +314,41 @@ def _check_wake(run, repo, world, mod):
            "self._response_available.set()" in body,
            "the waiting sender must be handed 'fail' and woken",
            where(mod, hfn))
-    for cq, test in ((HID + ".tridonic", "message == 'fail'"),
-                     (HID + ".hasseb", "self._response == 'fail'")):
+    for cq in (HID + ".tridonic", HID + ".hasseb"):
         o, f2 = _fn(world, cq, "_send_raw")
         from .. import astq
-        f2 = astq.propagate(f2)      # hoisted locals read as what they hold
-        ok = False
+        # what the sender takes from its mailbox: the tridonic pops the list
+        # it registered in self._outstanding, the hasseb reads self._response
+        boxes = set()
         for n in ast.walk(f2):
-            if isinstance(n, ast.If) and unparse(n.test) == test:
-                ok = any(isinstance(s, ast.Raise) and unparse(s.exc) in (
+            if isinstance(n, ast.Assign) and any(
+                    isinstance(t, ast.Subscript) and unparse(
+                        t.value) == "self._outstanding" for t in n.targets) \
+                    and isinstance(n.value, ast.Tuple):
+                boxes |= {unparse(e) for e in n.value.elts}
+        defs = astq._defs(f2)
+        tests = []
+        for n in ast.walk(f2):
+            if not (isinstance(n, ast.If) and isinstance(
+                    n.test, ast.Compare) and len(n.test.ops) == 1 and
+                    isinstance(n.test.ops[0], ast.Eq)):
+                continue
+            l_, r_ = n.test.left, n.test.comparators[0]
+            if isinstance(l_, ast.Constant):
+                l_, r_ = r_, l_
+            if not (isinstance(r_, ast.Constant) and r_.value == "fail"):
+                continue
+            src = l_
+            if isinstance(src, ast.Name) and src.id in defs:
+                src = defs[src.id]
+            st = unparse(src)
+            from_box = st == "self._response" or any(
+                st == "%s.pop(0)" % b for b in boxes)
+            raises = bool(n.body) and isinstance(
+                n.body[-1], ast.Raise) and unparse(n.body[-1].exc) in (
                     "CommunicationError", "CommunicationError()")
-                    for s in n.body)
+            tests.append(from_box and raises)
+        ok = bool(tests) and all(tests)
         run.ob("R-WAKE", cq + "._send_raw#fail->CommunicationError", ok,
                "a woken sender must turn 'fail' into CommunicationError",
                where(mod, f2))
